@@ -143,6 +143,17 @@ CHECKS = {
         design_ref="DESIGN.md section 4, C14",
         note=TB_COMMON + " The regex crate never panics on a haystack; allocation failure and closed stdout are outside the input quantifier; chess-logic crashes on "
              "syntactically valid but illegal positions (no king) are explicitly not decided. tables/reviewed_sites.json is part of the trusted base."),
+    "C04": dict(
+        category="other",
+        technique="static analysis: call-graph scoped panic-site inventory with interval/rule/reviewed discharge (shared engine of C14) over everything reachable from "
+                  "Searcher::analyze, use-tracking of every Result<_, SearchInterrupt>, dominator and must-pass-through checks on poll placement and the control loop, "
+                  "term checks of the cancellation token, shared root rule of C17",
+        text="Decides structural clauses X1-X8: the 167 panic sites reachable from the search/control threads are excluded (136 discharged, 31 add/mul/neg overflows of "
+             "scores and counters listed as numeric, not decided); interrupts are propagated by every caller and end the deepening loop; counting and the poll test "
+             "dominate each node's later stages; one shared AtomicBool; every outcome of recv() cancels then joins, receiver dropped after the join; sink errors are "
+             "discarded; loop bounded by max_depth; the root is never answered by the repetition shortcut. Latency of Stop and OS scheduling are NOT decided.",
+        design_ref="DESIGN.md section 4, C04",
+        note=TB_COMMON + " 38 individually reviewed sites (tables/reviewed_sites.json) are part of the trusted base; legal positions (with kings) are assumed as the property states."),
 }
 
 NOT_BUILT_REASON = "check not built yet (see DESIGN.md for the plan)"
